@@ -133,9 +133,16 @@ impl AsyncRead for Peer {
         let limit = self.limit();
         if self.cur >= limit {
             // nothing released (the script waits for an answer the client did not give, or is exhausted) / stream ended
-            self.log.push(Ev::ReadNoData);
-            self.log.push(Ev::Eof);
             self.reads_after_eof += 1;
+            // a client that keeps polling a finished stream loops without progress: stop it (the caller's guard turns
+            // the panic into a verdict) instead of hanging the run
+            if self.reads_after_eof > 2000 {
+                panic!("client polled the connection {} times after its end / with nothing released: loop without progress", self.reads_after_eof);
+            }
+            if self.reads_after_eof <= 8 {
+                self.log.push(Ev::ReadNoData);
+                self.log.push(Ev::Eof);
+            }
             return Poll::Ready(Ok(()));
         }
         if self.pending_toggle {
